@@ -501,6 +501,15 @@ func genAuth(o genOpts, w *bufio.Writer) {
 				fmt.Fprintf(w, "auth probe %s %s %s %s\n", name, f.Method, hexOf([]byte(f.Path)), k)
 			}
 		}
+		// the same routes under another spelling of their path: one character of the service prefix / of the version segment
+		// percent-encoded (net/http decodes it, the router matches the decoded path: it is the same route)
+		for _, f := range facts {
+			for _, sp := range escapedSpellings(f.Path) {
+				for _, k := range []string{"none", "garbage", "wrong-key"} {
+					fmt.Fprintf(w, "auth probe %s %s %s %s\n", name, f.Method, hexOf([]byte(sp)), k)
+				}
+			}
+		}
 		// paths that are not registered at all must not reach a handler either
 		fmt.Fprintf(w, "auth probe %s GET %s none\n", name, hexOf([]byte("/")))
 		fmt.Fprintf(w, "auth probe %s POST %s none\n", name, hexOf([]byte("/chargingdata")))
@@ -612,6 +621,22 @@ func runAuthConc(t []string) string {
 		s += " first=" + first
 	}
 	return s
+}
+
+// escapedSpellings: the path with its 2nd character, its first '-' and the first character of its second segment written as %XX
+func escapedSpellings(path string) []string {
+	var out []string
+	enc := func(i int) {
+		if i > 0 && i < len(path) && path[i] != '/' && path[i] != ':' {
+			out = append(out, fmt.Sprintf("%s%%%02X%s", path[:i], path[i], path[i+1:]))
+		}
+	}
+	enc(1)
+	enc(strings.Index(path, "-"))
+	if j := strings.Index(path[1:], "/"); j >= 0 {
+		enc(j + 2)
+	}
+	return out
 }
 
 var authRouters = map[string]*gin.Engine{}
